@@ -1,6 +1,6 @@
 (* C09 - data orders are drawn uniformly from those compatible with the tree; the reported density is
    1 / (number of such orders).  Statements only; proofs live in Proofs/Perm*.v. *)
-From PV Require Import Model.Perm Proofs.PermProofs Proofs.PermSound Proofs.PermComplete.
+From PV Require Import Model.Perm Proofs.PermProofs Proofs.PermSound Proofs.PermComplete Proofs.PermNoDup.
 From Coq Require Import Permutation.
 
 (* the sampler's law is the uniform law on the enumerated list of orders, for every tree / forest *)
@@ -24,6 +24,24 @@ Theorem C09_orders_complete : forall F o,
   NoDup (fpoints F) -> Permutation (fpoints F) o -> frespects o F -> In o (forders F).
 Proof. exact forders_complete. Qed.
 Print Assumptions C09_orders_complete.
+
+(* ... and none is enumerated twice when the data points are distinct *)
+Theorem C09_orders_NoDup : forall F, NoDup (fpoints F) -> NoDup (forders F).
+Proof. exact forders_NoDup. Qed.
+Print Assumptions C09_orders_NoDup.
+
+(* THE PROPERTY in point-mass form: with distinct data points, every order that is a permutation of all data
+   points placing each clone's points after its descendants' is drawn with probability exactly 1 / count,
+   every other list with probability 0; the reported density is 1 / count *)
+Theorem C09_each_compatible_order_equally_likely : forall F o,
+  NoDup (fpoints F) -> Permutation (fpoints F) o -> frespects o F -> E (fsample F) (ind o) = / fcount F.
+Proof. exact fsample_point_mass. Qed.
+Print Assumptions C09_each_compatible_order_equally_likely.
+
+Theorem C09_incompatible_order_never_drawn : forall F o,
+  ~ (Permutation (fpoints F) o /\ frespects o F) -> E (fsample F) (ind o) = 0.
+Proof. exact fsample_point_mass_incompatible. Qed.
+Print Assumptions C09_incompatible_order_never_drawn.
 
 (* the density (fixed code): count = number of enumerated orders *)
 Theorem C09_density_is_inverse_count : forall F, fcount F = qn (length (forders F)).
